@@ -12,6 +12,7 @@ import (
 	"sync"
 	"time"
 
+	"github.com/datastax/go-cassandra-native-protocol/datatype"
 	"github.com/datastax/go-cassandra-native-protocol/frame"
 	"github.com/datastax/go-cassandra-native-protocol/message"
 	"github.com/datastax/go-cassandra-native-protocol/primitive"
@@ -137,7 +138,15 @@ func runBytes(op string) (out string) {
 			if rq.Frame != nil {
 				q = rq.Frame.Body.Message.(*message.Prepare).Query
 			}
-			resp.Msg = &message.PreparedResult{PreparedQueryId: pid(q), ResultMetadataId: pid(q + "m")}
+			pr := &message.PreparedResult{PreparedQueryId: pid(q), ResultMetadataId: pid(q + "m")}
+			if strings.Contains(q, "/*big*/") { // thousands of result columns: decoding this answer takes a while
+				cols := make([]*message.ColumnMetadata, 6000)
+				for i := range cols {
+					cols[i] = &message.ColumnMetadata{Keyspace: "ks", Table: "t", Name: fmt.Sprintf("a_rather_long_column_name_%05d", i), Index: int32(i), Type: datatype.Varchar}
+				}
+				pr.ResultMetadata = &message.RowsMetadata{ColumnCount: int32(len(cols)), Columns: cols}
+			}
+			resp.Msg = pr
 		}
 		if _, isErr := resp.Msg.(message.Error); !isErr || rr.Bool() {
 			if rr.Chance(1, 4) {
@@ -351,6 +360,33 @@ func runBytes(op string) (out string) {
 			cl2.Close()
 			res = append(res, tok+"/same")
 		}
+	}
+	// what the proxy learns from a PREPARED answer it knows by the time the client has that answer: an EXECUTE of a
+	// SELECT sent the moment its (large) PREPARED result arrives is not overridden
+	if mainOK && len(unsupported) > 0 {
+		bigQ := stmtSelect + " /*big*/"
+		_ = cl.Send(90, &message.Prepare{Query: bigQ})
+		tok := "same"
+		if pr, err := cl.Recv(5 * time.Second); err != nil || pr.Frame == nil {
+			tok = "big-prepare-unanswered"
+		} else if p, ok := pr.Frame.Body.Message.(*message.PreparedResult); !ok {
+			tok = "big-prepare-refused"
+		} else {
+			mu.Lock()
+			delete(got, -1)
+			mu.Unlock()
+			_ = cl.Send(91, &message.Execute{QueryId: p.PreparedQueryId, ResultMetadataId: p.ResultMetadataId, Options: &message.QueryOptions{Consistency: primitive.ConsistencyLevel(unsupported[0])}})
+			_, rerr := cl.Recv(3 * time.Second)
+			mu.Lock()
+			rq := got[-1]
+			mu.Unlock()
+			if rerr != nil || rq == nil || rq.Frame == nil {
+				tok = "execute-after-big-prepare-lost"
+			} else if e2, ok := rq.Frame.Body.Message.(*message.Execute); !ok || e2.Options.Consistency != primitive.ConsistencyLevel(unsupported[0]) {
+				tok = "override-of-select-executed-right-after-its-prepare"
+			}
+		}
+		res = append(res, tok+"/same")
 	}
 	// a retried write must carry the bytes of its first attempt, whatever went through the connection in between:
 	// two writes in flight, the first answered with a write timeout of the batch log (retried once on the same host)
